@@ -339,9 +339,34 @@ class Lower:
                 ops = []
                 walk(vs[0], lambda z: ops.append(z) if z.get('kind') in ('BinaryOperator', 'UnaryOperator', 'CallExpr', 'DeclRefExpr') else None)
                 if len(plain) != 1 or ops:
-                    raise Unsupported('global constant %s is not a plain literal' % name)
-                val = plain[0]['value']
+                    val = self.eval_global_by_compiling(name, vs[0])
+                else:
+                    val = plain[0]['value']
             self.global_defs.append('static const %s BLG_%s = %s;' % (self.ctype(qt(vs[0])), name, val))
+
+    def eval_global_by_compiling(self, name, vdecl):
+        """a file-level arithmetic constant with a non-literal initialiser: let the compiler evaluate it
+        (the real translation unit is included and the value printed)"""
+        src = getattr(self, 'unit_src', None)
+        ns = getattr(self, 'unit_namespace', None)
+        if not src or ns is None:
+            raise Unsupported('global constant %s is not a plain literal' % name)
+        import tempfile
+        d = tempfile.mkdtemp(prefix='blg_')
+        try:
+            with open(os.path.join(d, 'g.cpp'), 'w') as f:
+                f.write('#include <cstdio>\n#include "%s"\nint main() { std::printf("%%.17g", (double)(%s::%s)); return 0; }\n' % (src, ns, name))
+            r = subprocess.run(['g++', '-std=c++20', '-w', '-O0', '-I/repo/src', '-I/repo/src/third_party', os.path.join(d, 'g.cpp'), '-o', os.path.join(d, 'g')] + list(getattr(self, 'unit_libs', [])),
+                               capture_output=True, text=True, timeout=300)
+            if r.returncode != 0:
+                raise Unsupported('global constant %s: cannot be evaluated (%s)' % (name, r.stderr[-300:]))
+            r = subprocess.run([os.path.join(d, 'g')], capture_output=True, text=True, timeout=20)
+            v = r.stdout.strip()
+            ct = self.ctype(qt(vdecl))
+            return v if ct in ('double', 'float') else str(int(float(v)))
+        finally:
+            import shutil
+            shutil.rmtree(d, ignore_errors=True)
 
     def head_only(self, d, cname=None, is_method=True):
         fn = d['name'] if cname is None else cname
